@@ -239,7 +239,7 @@ def build_harness():
     with Lock("cargo"):
         lock_src = "/repo/Cargo.lock"
         rc, out, err = sh(["cargo", "build", "--offline"], cwd=HARNESS, timeout=3000,
-                          env={"CARGO_NET_OFFLINE": "true"})
+                          env={"CARGO_NET_OFFLINE": "true", "CARGO_TARGET_DIR": os.path.join(CACHE, "target")})
     if rc != 0:
         return False, (out + err)[-6000:]
     return True, ""
@@ -258,6 +258,27 @@ def run_harness(pid, cases, timeout=3000, extra_args=(), env=None):
         raise RuntimeError("harness %s: rc=%s, %d results for %d cases\n%s" %
                            (pid, rc, len(res), len(cases), err[-3000:]))
     return res
+
+
+def run_isolated(pid, cases, watchdog_s=90, mem_gb=6, workers=8):
+    """Each case in its own harness process under a time and address-space limit (samplers that may not terminate)."""
+    import resource
+
+    def limit():
+        resource.setrlimit(resource.RLIMIT_AS, (mem_gb << 30, mem_gb << 30))
+
+    def one(case):
+        try:
+            p = subprocess.run([HARNESS_BIN, pid], input=json.dumps(case) + "\n", capture_output=True, text=True,
+                               timeout=watchdog_s, preexec_fn=limit)
+            lines = [l for l in p.stdout.splitlines() if l.startswith("{")]
+            if p.returncode != 0 or not lines:
+                return {"crash": "rc=%s %s" % (p.returncode, p.stderr[-300:])}
+            return json.loads(lines[-1])
+        except subprocess.TimeoutExpired:
+            return {"timeout": watchdog_s}
+    with ThreadPoolExecutor(max_workers=workers) as ex:
+        return list(ex.map(one, cases))
 
 
 # --------------------------------------------------------------- verdicts
